@@ -92,3 +92,13 @@ package pipe
 //@   ensures[the_first_error_for_a_destination_is_recorded] old(*dst) == nil ==> *dst == err
 //@   ensures[a_recorded_error_other_than_eof_is_kept] old(*dst) != nil && old(*dst) != io.EOF ==> *dst == old(*dst)
 //@   ensures[a_recorded_eof_is_replaced] old(*dst) == io.EOF ==> *dst == err
+
+//@ func NewPipeWithSize
+//@   props C35
+//@   modifies *
+//@   ensures[a_new_pipe] result0 != nil && !allocated(result0)
+
+//@ func NewPipeFromBufferPool
+//@   props C35
+//@   modifies *
+//@   ensures[a_new_pipe] result0 != nil && !allocated(result0)
